@@ -477,6 +477,11 @@ fn c08(quick: bool) -> Vec<Harness> {
             (2, 2, 0u16.wrapping_sub(3), false),
             (4, 2, 0, true),
             (4, 3, 0u16.wrapping_sub(5), true),
+            // Every buffer handed out: the kernel's head equals the tail, and the first release
+            // writes ring entry 0 (which shares its last two bytes with the tail).
+            (2, 2, 0, true),
+            (2, 2, 0u16.wrapping_sub(4), true),
+            (1, 1, 0, true),
         ] {
             if quick && releasers == 3 && reader {
                 continue;
